@@ -15,8 +15,23 @@ def main(argv):
     from .cli import load_prop
     mod = load_prop(pid)
     rec = core.set_current(core.Rec(pid, tier, seed, shard, nshards))
+    from .monitors import observe
+    from .monitors.install import import_all
+    import_all()
+    observing = observe.install(pid)          # before any monitor wraps a function
     mod.run(rec)
-    json.dump(rec.report(), open(out, "w"))
+    if tier == "thorough" and getattr(mod, "ATTACH", True):
+        # W2 scenarios and W3 (the repository's own tests) under this property's monitor families
+        from .scope import FAMILIES
+        if FAMILIES.get(pid):
+            from .props import attach
+            try:
+                attach.attach(rec, pid)
+            except Exception as e:
+                rec.notes["attach_error"] = repr(e)
+    rep = rec.report()
+    rep["lines"] = observe.report() if observing else None
+    json.dump(rep, open(out, "w"))
     return 0
 
 
